@@ -105,6 +105,25 @@ macro_rules! invalid_digit_partial {
     };
 }
 
+/// Complete parsers report a sign without digits through the digit loops.
+macro_rules! lone_sign_complete {
+    ($iter:ident, $radix:ident) => {};
+}
+
+/// A sign that is not followed by any digit is not a number (when digits
+/// are required): the partial parser reports it like the complete parser
+/// does for the sign alone, rather than as a zero that consumed the sign.
+macro_rules! lone_sign_partial {
+    ($iter:ident, $radix:ident) => {
+        if required_digits!()
+            && $iter.cursor() != 0
+            && $iter.peek().map_or(false, |&c| char_to_digit_const(c, $radix).is_none())
+        {
+            into_error!(Empty, $iter.cursor());
+        }
+    };
+}
+
 /// Return an error, returning the index and the error.
 macro_rules! into_error {
     ($code:ident, $index:expr) => {{
@@ -578,7 +597,7 @@ macro_rules! parse_digits_checked {
 /// * `is_partial` - If the parser is a partial parser.
 #[rustfmt::skip]
 macro_rules! algorithm {
-($bytes:ident, $into_ok:ident, $invalid_digit:ident, $no_multi_digit:expr) => {{
+($bytes:ident, $into_ok:ident, $invalid_digit:ident, $lone_sign:ident, $no_multi_digit:expr) => {{
     // WARNING:
     // --------
     // None of this code can be changed for optimization reasons.
@@ -619,6 +638,7 @@ macro_rules! algorithm {
             $into_ok!(T::ZERO, iter.cursor(), 0)
         }
     }
+    $lone_sign!(iter, radix);
 
     // Feature-gate a lot of format-only code here to simplify analysis with our branching
     // We only want to skip the zeros if have either require a base prefix or we don't
@@ -704,7 +724,7 @@ pub fn algorithm_complete<T, const FORMAT: u128>(bytes: &[u8], options: &Options
 where
     T: Integer,
 {
-    algorithm!(bytes, into_ok_complete, invalid_digit_complete, options.get_no_multi_digit())
+    algorithm!(bytes, into_ok_complete, invalid_digit_complete, lone_sign_complete, options.get_no_multi_digit())
 }
 
 /// Algorithm for the partial parser.
@@ -716,5 +736,5 @@ pub fn algorithm_partial<T, const FORMAT: u128>(
 where
     T: Integer,
 {
-    algorithm!(bytes, into_ok_partial, invalid_digit_partial, options.get_no_multi_digit())
+    algorithm!(bytes, into_ok_partial, invalid_digit_partial, lone_sign_partial, options.get_no_multi_digit())
 }
